@@ -117,13 +117,14 @@ Discard(k) ==
           ELSE LET m == Min(k - x.n, Sum(segs)) IN
                Set([e1 EXCEPT !.segs = DropFront(segs, m)], ms, [op |-> "Discard", pb |-> Buffered, k |-> k, n |-> x.n + m])
 
-(* Buffer.WriteTo: the ring part first; any error (including "ring part is empty") stops it.  *)
-(* Named deviation MixWriteToStopsOnEmptyRing: with an unallocated or empty ring nothing is  *)
-(* written even if the list holds data.                                                      *)
+(* Buffer.WriteTo: the ring part first (skipped when it holds nothing), then the list; an     *)
+(* error of the writer stops it.  (Until the repair recorded in known_findings.json an empty  *)
+(* ring part made WriteTo fail with ErrIsEmpty even though the list held data.)               *)
 WriteTo(sc) ==
     /\ ret = NoRet
-    /\ LET x  == IF alloc THEN WT(rb, sc) ELSE [st |-> rb, n |-> 0, err |-> "ErrIsEmpty", used |-> 0]
-           e1 == Done([E EXCEPT !.rb = x.st])
+    /\ LET ringPart == alloc /\ ~rb.empty
+           x  == IF ringPart THEN WT(rb, sc) ELSE [st |-> rb, n |-> 0, err |-> "nil", used |-> 0]
+           e1 == IF ringPart THEN Done([E EXCEPT !.rb = x.st]) ELSE E
        IN IF x.err # "nil"
           THEN Set(e1, ms, [op |-> "WriteTo", pb |-> Buffered, n |-> x.n, err |-> x.err])
           ELSE LET y == LWT(segs, SubSeq(sc, x.used + 1, Len(sc)), 0) IN
@@ -158,7 +159,8 @@ TypeOK == alloc \in BOOLEAN /\ ms \in StaticLimits /\ Len(segs) <= MaxSegs
 NoEmptyNodes == \A i \in 1..Len(segs) : segs[i] > 0
 \* an unallocated ring holds nothing; consuming operations hand an emptied ring back at once
 LazyRing == /\ ~alloc => rb = None
-            /\ (ret.op \in {"Read", "Discard", "WriteTo", "Release"} /\ alloc) => ~rb.empty
+            \* (WriteTo leaves an allocated ring that was already empty alone: it only hands back a ring it has drained)
+            /\ (ret.op \in {"Read", "Discard", "Release"} /\ alloc) => ~rb.empty
 RingContentOK == (TrackCells /\ alloc) =>
     \A j \in 0..(rb.size - 1) : rb.buf[(rb.r + j) % rb.size] = IF j < BufferedOf(rb) THEN j ELSE -1
 RingAccounting == alloc => /\ BufferedOf(rb) + AvailOf(rb) = rb.size
